@@ -96,7 +96,7 @@ pub fn before(id: usize, later: usize) -> bool { cnt(later) == 0 || (cnt(id) > 0
 /// assignments, no loops) and the thread / task models.
 pub fn reset() {
     unsafe {
-        SEQ = 0; CREATED = 0; DROPS = 0; TOKSUM = 0; DROPSUM = 0; WOKEN = false; WAKES = 0; ALLOCS = 0;
+        SEQ = 0; CREATED = 0; DROPS = 0; TOKSUM = 0; DROPSUM = 0; WOKEN = false; WAKES = 0; ALLOCS = 0; TRACE = 0; NCALLS = 0;
         CNT = [0; NEV]; FIRST = [0; NEV]; LAST = [0; NEV]; ARG = [0; NEV]; ARGX = [0; NEV];
         OPEN = [false; NGATE]; GATE_POLLS = [0; NGATE];
         WAKERS = [None, None, None, None, None, None, None, None];
@@ -232,3 +232,33 @@ pub fn k_spawned() -> usize { unsafe { tokio::SPAWNED } }
 pub fn k_faulted() -> usize { unsafe { tokio::FAULTED } }
 pub fn k_enable_faults() { unsafe { tokio::FAULTS = true; } }
 pub fn k_eager() -> usize { unsafe { tokio::EAGER } }
+
+// ---------------------------------------------------------------------------------------------
+// observation of arbitrary values as a byte (for call traces) and an order-sensitive trace hash
+// ---------------------------------------------------------------------------------------------
+pub trait Obs { fn obs(&self) -> u8; }
+impl Obs for u8 { fn obs(&self) -> u8 { *self } }
+impl Obs for bool { fn obs(&self) -> u8 { *self as u8 } }
+impl Obs for usize { fn obs(&self) -> u8 { (*self as u8).wrapping_mul(3) } }
+impl Obs for () { fn obs(&self) -> u8 { 0 } }
+impl<T: Obs> Obs for Option<T> { fn obs(&self) -> u8 { match self { Some(x) => x.obs().wrapping_add(1), None => 77 } } }
+impl<T: Obs, E: Obs> Obs for Result<T, E> { fn obs(&self) -> u8 { match self { Ok(x) => x.obs().wrapping_add(2), Err(e) => e.obs() ^ 0x55 } } }
+impl<A: Obs, B: Obs> Obs for (A, B) { fn obs(&self) -> u8 { self.0.obs().wrapping_mul(5) ^ self.1.obs() } }
+impl<T: Obs + ?Sized> Obs for &T { fn obs(&self) -> u8 { (**self).obs() } }
+impl Obs for Tok { fn obs(&self) -> u8 { self.0 } }
+impl<T> Obs for Vec<T> { fn obs(&self) -> u8 { self.len() as u8 } }
+
+pub static mut TRACE: u32 = 0;
+pub static mut NCALLS: u16 = 0;
+/// logged callback invocation: per-id count / argument xor plus an order-sensitive hash over (id, argument)
+pub fn call(id: usize, a: u8) {
+    eva(id, a);
+    unsafe { TRACE = (TRACE << 5).wrapping_sub(TRACE).wrapping_add(((id as u32) << 8) | a as u32); NCALLS += 1; }
+}
+pub fn trace() -> u32 { unsafe { TRACE } }
+pub fn ncalls() -> u16 { unsafe { NCALLS } }
+pub fn reset_trace() { unsafe { TRACE = 0; NCALLS = 0; } }
+pub use futures::future::ready;
+pub use futures::{FutureExt, TryFutureExt};
+/// identity on futures (operand of `->` in async programs)
+pub fn fut_id<F: Future>(f: F) -> F { f }
